@@ -70,8 +70,7 @@ def valid(seq):
                 return False
             state = "running"
         elif c[0] == "stop":
-            if state == "stopped":
-                return False
+            # stop() may be repeated: each call is an unschedule_all() (stop(); schedule(); stop() must leave nothing behind)
             state = "stopped"
     return True
 
@@ -104,7 +103,12 @@ class Run:
                 p, r, f = key_args(call[2])
                 obs.schedule(self.h[call[1]], p, recursive=r, event_filter=f)
             elif call[0] == "unschedule":
-                obs.unschedule(self.watches[call[1]])
+                # the emitter's own stop hook may fail (e.g. a failing close): the watch must be gone all the same
+                self.plan.arm_stop = True
+                try:
+                    obs.unschedule(self.watches[call[1]])
+                finally:
+                    self.plan.arm_stop = False
             elif call[0] == "add_handler":
                 obs.add_handler_for_watch(self.h[call[1]], self.watches[call[2]])
             elif call[0] == "remove_handler":
@@ -139,6 +143,8 @@ class Run:
             else:
                 ref.emitters.pop(k)
                 ref.handlers.pop(k, None)
+                if fired:
+                    want_exc = apirig.InjectedFailure  # raised by the stop hook; the unscheduling itself has happened
         elif call[0] == "add_handler":
             ref.handlers.setdefault(call[2], set()).add(call[1])
         elif call[0] == "remove_handler":
@@ -271,7 +277,7 @@ def rand_seq(r, n):
             c = r.choice(CALLS) if r.random() < 0.8 else r.choice([("start",), ("schedule", r.choice(HANDLERS), r.choice(KEYS))])
             if c[0] == "start" and state != "new":
                 continue
-            if c[0] == "stop" and (state == "stopped" or r.random() < 0.6):
+            if c[0] == "stop" and r.random() < (0.5 if state == "stopped" else 0.6):
                 continue
             break
         else:
@@ -284,8 +290,20 @@ def rand_seq(r, n):
     return seq
 
 
+def stop_family():
+    """Directed: everything scheduled around one or two stop() calls must be gone after the last stop()."""
+    out = []
+    for k in KEYS:
+        for h in HANDLERS:
+            out.append([("stop",), ("schedule", h, k), ("stop",)])
+            out.append([("start",), ("stop",), ("schedule", h, k), ("stop",), ("schedule", "h1", "K1")])
+            out.append([("schedule", h, k), ("start",), ("stop",), ("stop",), ("add_handler", h, k), ("stop",)])
+            out.append([("start",), ("schedule", h, k), ("stop",), ("schedule", h, k), ("add_handler", "h2", k), ("stop",), ("remove_handler", "h2", k)])
+    return out
+
+
 def plan(tier, seed, jobs):
-    specs = []
+    specs = [{"kind": "stopfam"}]
     nc = len(CALLS)
     if tier == "quick":
         # all sequences of length <= 2 with every fault position; length 3 strided; random longer ones
@@ -327,6 +345,10 @@ def run_batch(spec):
             if "stride" in spec and idx % spec["stride"] != spec["offset"]:
                 continue
             with_faults(b, seq, sample=(idx % 97 == 3))
+    elif spec["kind"] == "stopfam":
+        for i, seq in enumerate(stop_family()):
+            with_faults(b, seq, sample=(i == 0))
+            b.count("stop_family_sequences")
     elif spec["kind"] == "random":
         r = rng_for(spec["seed"], "c13", spec["j"])
         for n in range(spec["n"]):
